@@ -232,13 +232,57 @@ def run(ck):
             ck.violation('mdsort exited %d on well-formed messages: %r' % (rc, err[-300:]), {'stream': 'binary', 'config': conf.decode(errors='replace')})
         sb.cleanup()
 
+    # ---- stream 4: the copy across file systems (rename fails with EXDEV), alone and combined with a rewrite in the same rule ----
+    import iorun
+    nx = 4 if ck.tier == 'quick' else 40
+    for round_ in range(nx):
+        sb = mdrun.Sandbox()
+        md = sb.maildir('src'); dst = sb.maildir('dst')
+        msgs = {}
+        for i in range(10):
+            fields, body, text = msggen.gen_wf_message(rng)
+            fields = [(k, bl, rng.choice([b'old', b'a b', b'keep me'])) if k.lower() == b'x-label' else (k, bl, v) for k, bl, v in fields]
+            text = msggen.render_text(fields, body)
+            if len(text) > 20000:
+                continue
+            msgs[sb.add(md, 'new', text)] = (fields, body, text)
+        kind = round_ % 4
+        label = rng.choice([b'L', b'two words'])
+        acts = [b'move %s' % mdrun.conf_quote(dst.encode()),
+                b'move %s label %s' % (mdrun.conf_quote(dst.encode()), mdrun.conf_quote(label)),
+                b'label %s move %s' % (mdrun.conf_quote(label), mdrun.conf_quote(dst.encode())),
+                b'move %s add-header "X-Added" "v 1"' % mdrun.conf_quote(dst.encode())][kind]
+        conf = b'maildir "%s" {\n match all %s\n}\n' % (md.encode(), acts)
+        cp = sb.write_conf(conf)
+        rc, out, err = sb.run([], conf=cp, env={'VFIO_XDEV': '1', 'VFIO_ROOT': sb.root}, preload=iorun.SHIM)
+        after = sb.snapshot(dst)
+        reqs = ['msg %s %s G%s' % (hexs(t), hexs(b'm'), hexs(b'X-Label')) for _, _, t in msgs.values()]
+        got, _ = common.run_lines(model, reqs)
+        for (name, (fields, body, text)), g in zip(msgs.items(), got):
+            vals = [unhexs(x) for x in g.split(',')[1:]] if g.startswith('G') and g != 'GN' else []
+            buf = b' '.join(vals)
+            lab = (buf + b' ' if buf else b'') + label
+            sets = [[], [(b'X-Label', lab)], [(b'X-Label', lab)], [(b'X-Added', b'v 1')]][kind]
+            stats['evals'] += 1
+            stats['xdev'] = stats.get('xdev', 0) + 1
+            fin = [(k, v) for k, _, v in fields]
+            okfile = [b for b in after.values() if monitor(fin, body, sets, b) is None]
+            if not okfile:
+                ck.violation('copy across file systems with rule %r: no file in the destination is a faithful copy / rewrite of message %r... (exit %d, stderr %r)'
+                             % (acts, text[:80], rc, err[-200:]),
+                             {'stream': 'xdev', 'message_hex': hexs(text), 'config': conf.decode(errors='replace'), 'exit': rc})
+                break
+        if rc != 0:
+            ck.violation('mdsort exited %d on well-formed messages (cross-device copy): %r' % (rc, err[-300:]), {'stream': 'xdev', 'config': conf.decode(errors='replace')})
+        sb.cleanup()
+
     ck.coverage.update({
         'evaluations': stats['evals'],
         'distinct_nontrivial': len(stats['nontrivial']),
         'rule': 'messages from msggen.gen_wf_message (0-40 fields from a 29-name pool incl. names differing in case / prefixes of each other, '
                 'duplicates, folded values (space, tab, tab+space), encoded words, 8-bit, values up to 8 KiB, From line, missing final newline) '
                 'with 0-3 set_header operations then message_write; malformed stream (NUL, truncation, non-field lines, doubled empty lines, '
-                'blank before colon, CRLF, random bytes); binary runs of label+add-header rules. non-trivial = >=1 field and >=1 set; '
+                'blank before colon, CRLF, random bytes); binary runs of label+add-header rules; binary runs in which the rename fails with EXDEV (plain copy, move then label, label then move, move then add-header). non-trivial = >=1 field and >=1 set; '
                 'distinct = distinct request lines',
         'samples': samples,
         'traces_validated_against_impl': stats['evals'],
@@ -247,7 +291,7 @@ def run(ck):
         'known_finding_witnesses_replayed': list(WITNESSES),
     })
     ck.assumptions += ['monitor = independent RFC 5322 line-structure reader (harness/c08.py:py_fields)',
-                       'cross-device copy path is exercised under C01 (needs the interposer); here label/add-header rewrites',
+                       'cross-device copies run under the interposer (VFIO_XDEV)',
                        'glibc qsort is a stable merge sort (ties keep table order)']
 
 
